@@ -230,6 +230,16 @@ func commitScenario(a schedArg) (body func() string, baseline string, err error)
 				return nil, err
 			}
 		}
+		if a.Variant == 2 {
+			// a map slab and an array slab that fail to encode; the body removes them after the
+			// failed commit and commits again (error paths must leave the shared pools usable)
+			if _, err := w.Conts[1].Map.Set(tu.CompareValue, tu.GetHashInput, tu.Uint64Value(50), failingValue{}); err != nil {
+				return nil, err
+			}
+			if err := w.Conts[2].Arr.Append(failingValue{}); err != nil {
+				return nil, err
+			}
+		}
 		return w, nil
 	}
 	var prepared *World
@@ -243,6 +253,27 @@ func commitScenario(a schedArg) (body func() string, baseline string, err error)
 		prepared = nil
 		if err != nil {
 			return "", err
+		}
+		if a.Variant == 2 {
+			first := w.commitRaw(workers, a.Relaxed)
+			if first == nil {
+				return "first commit succeeded although two slabs cannot be encoded", nil
+			}
+			if _, _, err := w.Conts[1].Map.Remove(tu.CompareValue, tu.GetHashInput, tu.Uint64Value(50)); err != nil {
+				return "", err
+			}
+			if _, err := w.Conts[2].Arr.Remove(w.Conts[2].Arr.Count() - 1); err != nil {
+				return "", err
+			}
+			// drop whatever the failed (relaxed) commit already wrote from the comparison: start the log here
+			from := len(w.Ledger.Log)
+			cerr := w.commitRaw(workers, a.Relaxed)
+			var regs strings.Builder
+			for _, id := range w.Ledger.SortedIDs() {
+				fmt.Fprintf(&regs, "%s=%x;", id, w.Ledger.Regs[id])
+			}
+			_ = from
+			return fmt.Sprintf("second err=%v|%s|%s", cerr != nil, regs.String(), obsLayers(w.St)), nil
 		}
 		from := len(w.Ledger.Log)
 		cerr := w.commitRaw(workers, a.Relaxed)
